@@ -356,3 +356,4 @@ def run(ctx, res):
     rule_shape(ctx, res)
     rule_bucket_add(ctx, res)
     rule_who_mutates(ctx, res)
+    common.rule_find_node_identity(ctx, res)
